@@ -25,7 +25,21 @@ var mutantCatalogue = map[string][]mutant{}
 
 func addMutants(prop string, ms ...mutant) { mutantCatalogue[prop] = append(mutantCatalogue[prop], ms...) }
 
+// loadMutants reads checker/mutants.json: {"C04": [{"name":..,"file":..,"old":..,"new":..,"expect":..}, …], …}
+func loadMutants() {
+	var m map[string][]struct{ Name, File, Old, New, Expect string }
+	if err := readJSON(filepath.Join(verifDir(), "checker", "mutants.json"), &m); err != nil {
+		return
+	}
+	for prop, ms := range m {
+		for _, x := range ms {
+			addMutants(prop, mutant{Name: x.Name, File: x.File, Old: x.Old, New: x.New, Expect: x.Expect})
+		}
+	}
+}
+
 func runSelfTest(r *Run, spec *propSpec) {
+	loadMutants()
 	ms := mutantCatalogue[spec.ID]
 	if len(ms) == 0 {
 		return
